@@ -498,6 +498,64 @@ def observe_release(trace):
 _RUNS = [0]
 
 
+class _ThreadedGen(object):
+    """Drives a generator from a helper thread, one next() at a time (the
+    caller waits for each): the event loop then runs in another thread than
+    the one that owns the WebSocket / the with-block, as in applications that
+    iterate in a worker thread.  Still strictly sequential."""
+
+    def __init__(self, gen):
+        import queue
+        import threading
+        self._gen = gen
+        self._req = queue.Queue()
+        self._res = queue.Queue()
+        self._thread = threading.Thread(target=self._work, daemon=True)
+        self._thread.start()
+
+    def _work(self):
+        while True:
+            what = self._req.get()
+            if what == 'stop':
+                return
+            try:
+                if what == 'next':
+                    self._res.put(('value', next(self._gen)))
+                else:
+                    self._gen.close()
+                    self._res.put(('closed', None))
+            except StopIteration:
+                self._res.put(('stop', None))
+            except BaseException as e:      # noqa
+                self._res.put(('raise', e))
+
+    def __iter__(self):
+        return self
+
+    def __next__(self):
+        self._req.put('next')
+        kind, val = self._res.get()
+        if kind == 'value':
+            return val
+        if kind == 'stop':
+            self._req.put('stop')
+            raise StopIteration
+        raise val
+
+    def close(self):
+        self._req.put('close')
+        kind, val = self._res.get()
+        self._req.put('stop')
+        if kind == 'raise':
+            raise val
+
+    def __del__(self):
+        try:
+            self._req.put('stop')
+        except Exception:
+            pass
+
+
 class _Watchdog(object):
     """A loop inside the library that never calls into the simulated world
     (no socket, clock or lock operation) cannot exhaust any simulated budget:
@@ -577,6 +635,19 @@ def _run(scen):
     else:
         def make_gen():
             return ws.connect(**ckw)
+    if scen.get('iterate_in_thread'):
+        plain_make_gen = make_gen
+
+        def make_gen():
+            return _ThreadedGen(plain_make_gen())
+    if scen.get('pre_with_failure'):
+        # an earlier with-block on the object that was left by an exception
+        # before anything was connected (a failed set-up step)
+        try:
+            with ws:
+                raise _AppError('set-up failed')
+        except _AppError:
+            pass
     max_events = scen.get('max_events', 20000)
     mech = None
     for rule in (scen.get('app') or []):
